@@ -135,31 +135,39 @@ Section Reader.
           else Return (found s)                                                      (* D *)
         end.
 
-    Definition bstep (st : bst) : bout :=
+    (* the `match result {...}` of one loop iteration: an early return, or (result.is_done(),
+       the cursors as updated by the arm) handed to the code after the match *)
+    Definition bmatch (st : bst) : (bool * bst) + sres :=
       match find (try_fo st) with
       | FFound s =>
         match dt_after_or_before (s_t s) dt_filter with
-        | Pass => Return (found s)                                                   (* A *)
+        | Pass => inr (found s)                                                      (* A *)
         | OccursAtOrAfter =>
-          if try_fo st =? fileoffset then Return (found s)                           (* B *)
+          if try_fo st =? fileoffset then inr (found s)                              (* B *)
           else
             let tl := try_fo st in
             let b' := N.min (s_beg s) tl in
             if fo_a st <=? b' then                                  (* assert_le!(fo_a, fo_b) *)
-              endgame false (mkB (fo_a st + (b' - fo_a st) / 2) tl (fo_a st) b' (Some s))
-            else Return (SPanic 1)
+              inl (false, mkB (fo_a st + (b' - fo_a st) / 2) tl (fo_a st) b' (Some s))
+            else inr (SPanic 1)
         | OccursBefore =>
           let foe := s_end s in
           let tl := try_fo st in
           if tl <=? foe then                          (* assert_le!(try_fo_last, syslinep_foe) *)
             let a' := N.min foe (fo_b st) in                        (* hence a' <= fo_b *)
-            endgame false (mkB (a' + (fo_b st - a') / 2) tl a' (fo_b st) (Some s))
-          else Return (SPanic 2)
+            inl (false, mkB (a' + (fo_b st - a') / 2) tl a' (fo_b st) (Some s))
+          else inr (SPanic 2)
         end
       | FDone =>
         if fo_a st <=? fo_b st then      (* u64 `fo_b - fo_a`: traps with overflow checks, wraps in release *)
-          endgame true (mkB (fo_a st + (fo_b st - fo_a st) / 2) (try_fo st) (fo_a st) (fo_b st) (last_found st))
-        else Return (SPanic 3)
+          inl (true, mkB (fo_a st + (fo_b st - fo_a st) / 2) (try_fo st) (fo_a st) (fo_b st) (last_found st))
+        else inr (SPanic 3)
+      end.
+
+    Definition bstep (st : bst) : bout :=
+      match bmatch st with
+      | inr r => Return r
+      | inl (done, st') => endgame done st'
       end.
 
     Fixpoint bloop (fuel : nat) (st : bst) : sres :=
